@@ -173,6 +173,23 @@ Theorem C16_repeat_until_valid : forall A (d : dec A) stop enc xs term tail fuel
 Proof. exact @repeat_until_valid. Qed.
 Print Assumptions C16_repeat_until_valid.
 
+(* a missing terminator is a parse error wherever the data ends: exactly on an element boundary (the
+   empty input included) ... *)
+Theorem C16_repeat_until_unterminated : forall A (d : dec A) (stop : A -> bool) enc xs fuel,
+  (forall x t, d (enc x ++ t) = Some (x, t)) -> d [] = None ->
+  forallb (fun x => negb (stop x)) xs = true ->
+  repeat_until fuel d stop (concat (map enc xs)) = None.
+Proof. exact repeat_until_unterminated. Qed.
+Print Assumptions C16_repeat_until_unterminated.
+
+(* ... or inside an element *)
+Theorem C16_repeat_until_cut_inside : forall A (d : dec A) (stop : A -> bool) enc xs cut fuel,
+  (forall x t, d (enc x ++ t) = Some (x, t)) -> d cut = None ->
+  forallb (fun x => negb (stop x)) xs = true ->
+  repeat_until fuel d stop (concat (map enc xs) ++ cut) = None.
+Proof. exact repeat_until_cut_inside. Qed.
+Print Assumptions C16_repeat_until_cut_inside.
+
 (* DWARF initial length: every 32-bit length below 0xfffffff0 and every escaped
    64-bit length is accepted with the right format flag; reserved escapes rejected *)
 Theorem C16_initial_length_valid : forall le len is64 tail,
